@@ -1,3 +1,4 @@
+import Falcon.Gen.Scan
 import Falcon.Model.SignSkel
 import Falcon.Lemmas.SignRefine
 
@@ -18,6 +19,14 @@ open Falcon Falcon.SignSkel
 theorem salt_is_filled_once_before_hashing :
     Gen.signSaltLen = 40 ∧ Gen.saltLen = 40 ∧ Gen.signSaltFills = 1 ∧ Gen.signSaltWrites = 2 ∧ Gen.signSaltBeforeHash = true :=
   ⟨rfl, rfl, rfl, rfl, rfl⟩
+
+/-- where the randomness comes from: outside the tests the library touches an entropy source in exactly two places, the
+    seed drawn by `SecretKey::generate` and the generator `sign` opens for this call (`thread_rng()`, from which the salt
+    is the first thing drawn) — no other generator, cache, clock or global state (source text re-extracted on every run) -/
+theorem sign_draws_from_this_calls_thread_rng :
+    Gen.entropySites.map (fun s => (s.1, s.2.2)) =
+      [("falcon.rs", "Self::generate_from_seed(thread_rng().gen())"),
+       ("falcon.rs", "let mut rng = thread_rng();")] := by decide
 
 /-- the salt does not depend on the message or the key: it is a function of this call's draws alone -/
 theorem salt_independent_of_message_and_key (draws : List Nat) :
